@@ -568,11 +568,14 @@ def fuse_candidates(spec):
     return [(i, k) for (p, _on, i, k) in spec.edges() if cnt[p] == 1]
 
 
-def check_fuse(rec, env, spec, tag, accept, accept_desc):
-    """accept: set of (child index, child input name) edges on which the callback fuses, or None = every offer"""
+def check_fuse(rec, env, spec, tag, accept, accept_desc, inplace=False):
+    """accept: set of (child index, child input name) edges on which the callback fuses, or None = every offer.
+    inplace: the callback fuses INTO the current node (mutates its payload / inputs / name) and returns that same object - allowed by
+    the callback's documented contract ('if it returns a node, use it to replace the current node and its parent')"""
     G = env.G
     rec.cases += 1
-    inputs = {"transformation": "fuse_nodes", "callback": "fuse child+parent into one node (payload records both) on offers " + accept_desc, "names": tag, "graph": spec.json()}
+    inputs = {"transformation": "fuse_nodes", "callback": ("fuse the parent INTO the current node, returning the same object," if inplace else "fuse child+parent into one node")
+              + " (payload records both) on offers " + accept_desc, "names": tag, "graph": spec.json()}
     fused_any = []
 
     def body():
@@ -589,7 +592,12 @@ def check_fuse(rec, env, spec, tag, accept, accept_desc):
             new_in = {k: v for k, v in cur.inputs.items() if k != cin}
             for k, v in parent.inputs.items():
                 new_in[cin + SEP + k] = v
-            nd = G.Node(parent.name + "+" + cur.name, list(cur.outputs), Fused(parent.payload, pout, cur.payload, cin))
+            if inplace:
+                nd = cur
+                nd.name = parent.name + "+" + cur.name
+                nd.payload = Fused(parent.payload, pout, cur.payload, cin)
+            else:
+                nd = G.Node(parent.name + "+" + cur.name, list(cur.outputs), Fused(parent.payload, pout, cur.payload, cin))
             nd.inputs = new_in
             origin[id(nd)] = ci
             keep.append(nd)
@@ -995,15 +1003,18 @@ def run(out, tier, seed):
                 masks = [set(c) for r_ in range(len(cand) + 1) for c in itertools.combinations(cand, r_)]
                 for m in masks:
                     check_fuse(rec, env, spec, sch.tag, m, "%r" % sorted(m))
+                    if m:
+                        check_fuse(rec, env, spec, sch.tag, m, "%r" % sorted(m), inplace=True)
             else:
                 check_fuse(rec, env, spec, sch.tag, None, "ALL")
+                check_fuse(rec, env, spec, sch.tag, None, "ALL", inplace=True)
                 if sch is PLAIN:
                     for c in cand:
                         check_fuse(rec, env, spec, sch.tag, {c}, "%r" % [c])
                         check_fuse(rec, env, spec, sch.tag, set(cand) - {c}, "%r" % sorted(set(cand) - {c}))
     rec.samples.append({"transformation": "fuse_nodes", "callback": "fuse on ALL offers", "graph": scheme_spec(s3[-1], PLAIN).json()})
     rec.emit(out, "fuse_nodes on all small DAGs x fusion callbacks", "exhaustive enumeration",
-             space + " x callbacks that fuse (child, parent) into one node on a chosen set of offers: EVERY subset of the fusable edges when there are at most 3 (thorough: 4) of them, "
+             space + " x callbacks that fuse (child, parent) into one NEW node, or INTO the current node (same object returned), on a chosen set of offers: EVERY subset of the fusable edges when there are at most 3 (thorough: 4) of them, "
              "otherwise {all, each single edge, all but one}; the other name sets with the fuse-everything callback; " + describe_structs() + side3
              + ". Non-trivial = the callback fused at least once.")
 
